@@ -300,6 +300,11 @@ func genInst(r *vh.Rand) string {
 	for _, v := range vlists {
 		tables += fmt.Sprintf(",%s=%d", v, r.Range(1, 5))
 	}
+	xs, ws := vlists, []string(nil)
+	if len(vlists) > 1 {
+		k := r.Range(1, len(vlists)-1)
+		xs, ws = vlists[:k], vlists[k:]
+	}
 	nscen := r.Range(1, 2)
 	var rs, ss []string
 	for i := 0; i < nscen; i++ {
@@ -308,18 +313,14 @@ func genInst(r *vh.Rand) string {
 		for j := 0; j < nreq; j++ {
 			name := fmt.Sprintf("s%dr%d", i, j)
 			pre := "x:N:users:id"
-			if len(vlists) > 0 && r.Chance(1, 2) {
+			if len(xs) > 0 && r.Chance(1, 2) {
 				// the row the target sees comes from a list variable; another list (often of the
-				// same name under another source) is advanced by the same request
-				vs := append([]string(nil), vlists...)
-				k := r.Intn(len(vs))
-				pre = "x:V:" + strings.Replace(vs[k], ".", ":", 1)
-				vs = append(vs[:k], vs[k+1:]...)
-				if len(vs) > 0 && r.Chance(2, 3) {
-					pre += "+w:V:" + strings.Replace(vs[r.Intn(len(vs))], ".", ":", 1)
-				}
-				if r.Chance(1, 3) {
-					pre += "+u:N:users:id"
+				// same name under another source) is advanced by the same request.  Lists whose
+				// rows are observed (xs) are never advanced unobserved (ws): the multiset of
+				// observed rows must not depend on the interleaving of the instances.
+				pre = "x:V:" + strings.Replace(xs[r.Intn(len(xs))], ".", ":", 1)
+				if len(ws) > 0 && r.Chance(2, 3) {
+					pre += "+w:V:" + strings.Replace(ws[r.Intn(len(ws))], ".", ":", 1)
 				}
 			}
 			if r.Chance(1, 4) {
